@@ -445,7 +445,7 @@ func worldSeed(seed uint64, prop string, i int) uint64 {
 func Check(id, tier string, seed uint64, repo, vd string) (*gensim.Outcome, error) {
 	nWorlds, checks, cold := 24, 220, 20
 	if id == "C07" {
-		checks = 60
+		nWorlds, checks = 40, 50
 	}
 	if tier == "thorough" {
 		nWorlds, checks, cold = 320, 1600, 100
